@@ -107,7 +107,24 @@ func (ex *Exec) preludeOnce(key, decl string) {
 	}
 }
 
+// canonType drops the parameter names of a function type, so that identical types get one tag.
+func canonType(t types.Type) types.Type {
+	sg, ok := t.(*types.Signature)
+	if !ok {
+		return t
+	}
+	strip := func(tp *types.Tuple) *types.Tuple {
+		var vs []*types.Var
+		for i := 0; i < tp.Len(); i++ {
+			vs = append(vs, types.NewVar(0, nil, "", tp.At(i).Type()))
+		}
+		return types.NewTuple(vs...)
+	}
+	return types.NewSignatureType(nil, nil, nil, strip(sg.Params()), strip(sg.Results()), sg.Variadic())
+}
+
 func (ex *Exec) tagOf(t types.Type) Term {
+	t = canonType(t)
 	k := types.TypeString(t, nil)
 	n, ok := ex.tags[k]
 	if !ok {
@@ -732,6 +749,7 @@ func (ex *Exec) verifyFunc(fn *ssa.Function, c *Contract) {
 	if fn.Blocks == nil {
 		ex.fail("function has no body")
 	}
+	ex.noMerge = c.NoMerge
 	st := &State{heap: map[string]Term{}, declared: map[string]bool{}, cells: map[int]*Val{}}
 	st.next0 = ex.freshConst(st, "next0", SInt)
 	st.assume(app(SBool, ">", st.next0, tOne))
@@ -940,6 +958,9 @@ func (ex *Exec) frameFormula(key string, cur, base Term, targets []target, nextB
 	allowed = append(allowed, mkEq(a, b))
 	if len(idx) > 0 && idx[0].Sort == SInt && !strings.HasPrefix(key, "G:") {
 		allowed = append(allowed, app(SBool, ">=", idx[0], nextBase))
+		// index 0 is nil: a nil pointer has no fields, a nil slice no elements, a nil map no entries that
+		// real code could write; a difference there can only come from the havoc of a callee's frame
+		allowed = append(allowed, app(SBool, "<=", idx[0], tZero))
 	}
 	for _, t := range targets {
 		if t.key != key {
